@@ -349,6 +349,8 @@ class World:
             st["ever"] = True
             if fault:
                 self.fault("solver_" + fault)
+            elif step.get("mode") == "real" and not st.get("tainted"):
+                self.compare_real_solve(act, st, step, out)
         else:
             st["ever"] = True  # a transcription was at least attempted
             if st["pending"]:
@@ -356,6 +358,47 @@ class World:
             elif out.startswith("raised") and fault is None:
                 self.unexpected_raise(act, st, "solve", Exception(out), lambda fresh: self.handoff(fresh))
         return out
+
+    def compare_real_solve(self, act, st, step, out):
+        """with the real (deterministic) solver, the evolved OCP and the same specification written afresh must end the
+        same way: both succeed with the same solution, iteration count and number of callback invocations, or both fail"""
+        try:
+            fresh = build(program(act.spec), "fresh")
+        except Exception:
+            return
+        self.seam.mode = "real"
+        how = step.get("how", "solve")
+        try:
+            solF = fresh.ocp.solve() if how == "solve" else fresh.ocp.solve_limited()
+            outF = "ok"
+        except KeyboardInterrupt:
+            outF = "raised:KeyboardInterrupt"
+        except Exception as e:
+            outF = "raised:" + type(e).__name__
+            errF = str(e)
+        finally:
+            self.seam.mode = "stub"
+        if out.split(":")[0] != outF.split(":")[0]:
+            raise Violation("solve-outcome-differs", "real %s on the evolved OCP: %s; on the same specification written afresh: %s (solver %s, callback %s)" % (
+                how, out, outF, act.spec.solver[0] if act.spec.solver else None, act.spec.cb))
+        if out == "ok":
+            sol = self.last_sol.get(act.name)
+            try:
+                g1, g2 = np.array(sol.gist, dtype=float), np.array(solF.gist, dtype=float)
+                it1 = sol.sol.stats().get("iter_count") if hasattr(sol.sol, "stats") else None
+                it2 = solF.sol.stats().get("iter_count") if hasattr(solF.sol, "stats") else None
+            except Exception:
+                self.probe("real_solve_compare_unavailable")
+                return
+            if g1.shape != g2.shape or not np.allclose(g1, g2, rtol=1e-8, atol=1e-10, equal_nan=True):
+                raise Violation("solve-result-differs", "real %s returns different solutions on the evolved OCP and on the same specification written afresh (max abs diff %s)" % (
+                    how, float(np.nanmax(np.abs(g1 - g2))) if g1.shape == g2.shape else "shape"))
+            if it1 != it2:
+                raise Violation("solve-result-differs", "iteration counts differ: evolved %s, fresh %s" % (it1, it2))
+            c1, c2 = len(act.hidden.get("cb_log", [])), len(fresh.hidden.get("cb_log", []))
+            if act.spec.cb and (c2 > 0) != (c1 > 0):
+                raise Violation("callback-differs", "the callback ran %d times during solves of the evolved OCP but %d times on the fresh one" % (c1, c2))
+        self.probe("real_solve_compared_with_fresh")
 
     # -- persistence
     def _save(self, act, st, step):
